@@ -37,6 +37,7 @@ def to_base(n, b):
 
 
 class C20(PropertyCheck):
+    extra_vo = ['Conv/JsonInst.vo']          # model files evaluated by the correspondence that Props/<id>.v does not depend on
     id = 'C20'
     imports = ('From Coq Require Import List ZArith String.\nFrom Xr Require Import Base.Res Base.Show Conv.Dates Conv.Fractions Conv.ConvInst.\n'
                'Import ListNotations.\nOpen Scope Z_scope.\n')
